@@ -344,8 +344,17 @@ Section Cfg.
   | CSetIdx (k : str) (i : nat) (x : pyval)       (* cfg.k[i] = x *)
   | CValidate (collect : bool)                    (* cfg.validate(collect_errors) *)
   | CLoads (parsed : res pyval)
-  | CInsert (k : str) (i : Z) (x : pyval).        (* cfg.k.insert(i, x) on a list of configurations *)                  (* cfg.loads(document, format): what the format's parser made of the document
-                                                     (the parser is not code of this repository); include fields: Tree.v *)
+  | CInsert (k : str) (i : Z) (x : pyval)         (* cfg.k.insert(i, x) on a list of configurations *)
+  (* (CLoads: cfg.loads(document, format): what the format's parser made of the document -- the parser is not code of
+     this repository; include fields: Tree.v) *)
+  (* a configuration OBJECT built elsewhere (`src`, a value of this model with its own identity) handed over as it is *)
+  | CSetObj (k : str) (src : cfg)                 (* cfg.k = other / cfg["a.k"] = other / Schema(k=other) *)
+  | CAppendObj (k : str) (src : cfg)              (* cfg.k.append(other) *)
+  | CSetIdxObj (k : str) (i : nat) (src : cfg)    (* cfg.k[i] = other *)
+  | CInsertObj (k : str) (i : Z) (src : cfg).     (* cfg.k.insert(i, other) *)
+
+  (* how a leaf field sees a Config object handed to it: an object of some other class (the tag is reserved for this) *)
+  Definition cfg_object : pyval := POther 77.
 
   Fixpoint set_nth_cfg (i : nat) (x : cfg) (l : list cfg) : list cfg :=
     match l, i with
@@ -377,6 +386,10 @@ Section Cfg.
   Definition insert_pos (i : Z) (len : nat) : nat :=
     let n := Z.of_nat len in
     Z.to_nat (if (i <? 0)%Z then Z.max 0 (i + n) else Z.min i n).
+
+  (* a configuration object offered as item number `pos` of the list at path p: value.validate() *)
+  Definition obj_item (p : str) (pos : N) (vs : list N) (fs' : list (str * node)) (src : cfg) : oc :=
+    validate_raise (NSub false vs fs') (path_index p pos) (VCfg src).
 
   Definition apply_cop (w : world) (pre : str) (c : cfg) (dynamic : bool) (vs : list N) (fs : list (str * node)) (o : cop)
     : world * cfg * oc :=
@@ -430,6 +443,55 @@ Section Cfg.
             end
         | _, _ => (w, c, ONav)
         end
+    | CSetObj k src =>
+        (* Config._set_value with a Config value: a leaf field (any `Field`, ListField included) runs field.validate on the
+           object; a Schema / ConfigTypeField slot takes it as it is -- value._parent = self; value._key = key;
+           self._data[key] = value; self._default_value_keys.discard(key) -- no validation, no look at its schema *)
+        match fget k fs with
+        | None => if dynamic then (w, c, OUnm)               (* stored raw in an AnyField registered on the spot *)
+                  else (w, c, OErr EAttribute)
+        | Some (NLeaf f) =>
+            match lvalidate f cfg_object with
+            | Err e => (w, c, OErr (wrap (path_join pre k) e))
+            | _ => (w, c, OUnm)                                (* a raw Config held by a leaf (AnyField): outside the value model *)
+            end
+        | Some (NSub _ _ _) => (w, store c k (VCfg src), OOk)
+        | Some (NCfgList _ _ _) => (w, c, OErr (EValidation (path_join pre k)))    (* ListField._validate: value is not a list *)
+        end
+    | CAppendObj k src =>
+        (* ListProxy._validate with a Config item: parent / key / container are set, then value.validate() in raising mode;
+           the item is not in the list yet, so the position it reports is len(self) *)
+        match fget k fs, dget k (c_data c) with
+        | Some (NCfgList _ vs' fs'), Some (VList l) =>
+            match obj_item (path_join pre k) (N.of_nat (length l)) vs' fs' src with
+            | OOk => (w, match c with Cfg i d df dy => Cfg i (dset k (VList (l ++ [src])) d) df dy end, OOk)
+            | o => (w, c, o)
+            end
+        | _, _ => (w, c, ONav)
+        end
+    | CSetIdxObj k i src =>
+        match fget k fs, dget k (c_data c) with
+        | Some (NCfgList _ vs' fs'), Some (VList l) =>
+            match obj_item (path_join pre k) (N.of_nat (length l)) vs' fs' src with
+            | OOk =>
+                if (i <? length l)%nat
+                then (w, match c with Cfg i0 d df dy => Cfg i0 (dset k (VList (set_nth_cfg i src l)) d) df dy end, OOk)
+                else (w, c, OErr EIndex)
+            | o => (w, c, o)
+            end
+        | _, _ => (w, c, ONav)
+        end
+    | CInsertObj k i src =>
+        match fget k fs, dget k (c_data c) with
+        | Some (NCfgList _ vs' fs'), Some (VList l) =>
+            match obj_item (path_join pre k) (N.of_nat (length l)) vs' fs' src with
+            | OOk =>
+                let n := insert_pos i (length l) in
+                (w, match c with Cfg i0 d df dy => Cfg i0 (dset k (VList (firstn n l ++ src :: skipn n l)) d) df dy end, OOk)
+            | o => (w, c, o)
+            end
+        | _, _ => (w, c, ONav)
+        end
     end.
 
   (* walk down to the addressed configuration, apply, rebuild upwards *)
@@ -456,6 +518,40 @@ Section Cfg.
         | _, _ => (w, c, ONav)
         end
     end.
+
+  (* ---- histories in which configuration objects are built on the side and then handed over ----
+     XObj r k sdyn svs sfs dops: "build a fresh configuration of the schema (sdyn, svs, sfs), apply dops to it (whatever
+     their outcome), then hand it to the addressed configuration by route r at key k".  The object is built by this very
+     model, in the same world (identities, callable defaults), before the walk to the addressed configuration starts. *)
+  Inductive objroute := RSet | RAppend | RSetIdx (i : nat) | RInsert (i : Z).
+  Inductive xop :=
+  | XOp (o : cop)
+  | XObj (r : objroute) (k : str) (sdyn : bool) (svs : list N) (sfs : list (str * node)) (dops : list (list pstep * cop)).
+
+  Fixpoint run_detached (dops : list (list pstep * cop)) (w : world) (c : cfg) (sdyn : bool) (svs : list N)
+           (sfs : list (str * node)) : world * cfg :=
+    match dops with
+    | [] => (w, c)
+    | (ps, o) :: r => let '(w1, c1, _) := at_path ps w [] c sdyn svs sfs o in run_detached r w1 c1 sdyn svs sfs
+    end.
+  Definition detached (w : world) (sdyn : bool) (svs : list N) (sfs : list (str * node)) (dops : list (list pstep * cop))
+    : world * cfg :=
+    let '(w1, c0) := build_cfg w sfs in run_detached dops w1 c0 sdyn svs sfs.
+  Definition obj_cop (r : objroute) (k : str) (src : cfg) : cop :=
+    match r with
+    | RSet => CSetObj k src
+    | RAppend => CAppendObj k src
+    | RSetIdx i => CSetIdxObj k i src
+    | RInsert i => CInsertObj k i src
+    end.
+  Definition resolve (w : world) (x : xop) : world * cop :=
+    match x with
+    | XOp o => (w, o)
+    | XObj r k sdyn svs sfs dops => let '(w1, src) := detached w sdyn svs sfs dops in (w1, obj_cop r k src)
+    end.
+  Definition at_path_x (ps : list pstep) (w : world) (pre : str) (c : cfg) (dynamic : bool) (vs : list N)
+             (fs : list (str * node)) (x : xop) : world * cfg * oc :=
+    let '(w1, o) := resolve w x in at_path ps w1 pre c dynamic vs fs o.
 
   (* ---- to_tree(virtual=False, sensitive_mask) ---- *)
   Fixpoint repeat_str (m : str) (n : nat) : str := match n with O => [] | S n' => m ++ repeat_str m n' end.
@@ -579,3 +675,5 @@ End Cfg.
 Arguments NLeaf {F} f.
 Arguments NSub {F} dyn vals fields.
 Arguments NCfgList {F} required vals fields.
+Arguments XOp {F} o.
+Arguments XObj {F} r k sdyn svs sfs dops.
